@@ -4,6 +4,8 @@ import asyncio, datetime as D, json, os, struct, sys, time, warnings, zoneinfo
 sys.path.insert(0, os.path.dirname(os.path.abspath(__file__)))
 import time_machine
 for _c in (DeprecationWarning, PendingDeprecationWarning, FutureWarning): warnings.filterwarnings("error", category=_c, module=r"aioswitcher(\..*)?$")     # as in world.py
+import logging
+logging.getLogger("aioswitcher").addHandler(logging.NullHandler()); logging.getLogger("aioswitcher").propagate = False; logging.getLogger("aioswitcher").setLevel(logging.DEBUG)   # as in check.py: code that only runs while someone is debugging runs here too
 from aioswitcher.schedule import Days, tools
 from aioswitcher.schedule.parser import get_schedules
 
